@@ -10,6 +10,7 @@
 mod emit;
 mod emit_corpus;
 mod gen;
+mod scope;
 use pyxis::grammar::ItemPath;
 use pyxis::semantic::types::*;
 use pyxis::semantic::{ResolvedSemanticState, SemanticState};
@@ -1128,6 +1129,7 @@ fn run_family(prop: &str, seed: u64, quick: bool, out: &mut Vec<Fail>) -> usize 
     if ["C05", "C16", "C17", "C10", "C12"].contains(&prop) { n += fn_family(prop, out); }
     if ["C06", "C16", "C12"].contains(&prop) { n += inherit_family(if prop == "C16" { "C06" } else { prop }, out); }
     if ["C05", "C07", "C10", "C11", "C14", "C15", "C17", "C19", "C20", "C12"].contains(&prop) { n += misc_family(prop, out); }
+    if ["C11", "C19", "C10"].contains(&prop) { n += scope::scope_family(prop, quick, out); }
     let sampled = EMIT_SAMPLE.with(|c| { let mut c = c.borrow_mut(); c.0 = 0; std::mem::take(&mut c.2) });
     for (input, ptr, x) in &sampled { emit_fail(out, prop, input.clone(), *ptr, x); }
     n
